@@ -102,7 +102,14 @@ func keywordToken(b []byte) ([]byte, int) {
 			if v, id := tokFloatRule(b); len(v) > 0 {
 				return v, id
 			}
-			return tokIntRule(b)
+			v, id := tokIntRule(b)
+			if len(v) > 0 {
+				if _, err := tryParseInt(v); err != "" {
+					// Matches the pattern but does not fit in 64 bits.
+					return v, INVALID
+				}
+			}
+			return v, id
 		case '_':
 			return tokIdRule(b)
 
